@@ -30,6 +30,13 @@ theorem C18_data_before_eof {x : Sys α} (h : Reachable false x) (d : List α)
     ∃ a, x.arrivedAtFin = some a ∧ a <+: d :=
   (inv2_reachable h).eofOk d he
 
+/-- The frame list of a reachable state may be extended at its end at any time: the state with the
+    longer list is reachable as well.  (The T-diff engine delivers frames one op at a time by
+    appending them to `frames`; this theorem keeps every engine state inside `Reachable`.) -/
+theorem C18_frames_may_arrive_later {ff : Bool} {x : Sys α} (h : Reachable ff x) (fs : List (Frame α)) :
+    Reachable ff { x with frames := x.frames ++ fs } :=
+  reachable_ext h fs
+
 /-- Nothing is ever skipped or reordered by the reader: the chunks accepted by `PushData` are the
     chunks delivered so far followed by the buffer content (either statement order). -/
 theorem C18_fifo {ff : Bool} {x : Sys α} (h : Reachable ff x) :
